@@ -34,7 +34,7 @@ PEEKS = {
     "src/poisonable.rs": "peek/poisonable.rs",
 }
 T2_FROM = "&raw const **lock"
-T2_TO = "(&raw const **lock).cast::<()>()"
+T2_TO = "(&raw const **lock).cast::<()>() as usize"
 
 
 def log(*a):
@@ -411,6 +411,7 @@ def main():
     ap.add_argument("--keep", action="store_true")
     ap.add_argument("--only", default=None, help="regex restricting the harnesses (debugging; evidence is marked partial)")
     ap.add_argument("--no-lemmas", action="store_true")
+    ap.add_argument("--timeout", type=int, default=None)
     ap.add_argument("--no-replay", action="store_true")
     ap.add_argument("--jobs", type=int, default=int(os.environ.get("VERIF_JOBS", "16")))
     args = ap.parse_args()
@@ -428,7 +429,7 @@ def main():
     wanted = sorted(h for h in all_h if any(re.match(p, h) for p in prefixes))
     if args.only:
         wanted = [h for h in wanted if re.search(args.only, h)]
-    timeout_s = cfg.get("timeout_s", {}).get(tier, 600 if tier == "quick" else 2400)
+    timeout_s = args.timeout or cfg.get("timeout_s", {}).get(tier, 600 if tier == "quick" else 2400)
     evidence_path = os.path.join(VERIF, "evidence", "%s.json" % prop)
     os.makedirs(os.path.dirname(evidence_path), exist_ok=True)
 
